@@ -64,6 +64,9 @@ type GenCfg struct {
 	OldParent    float64   // probability that an other-parent is an old event instead of the latest
 	BigIdx       bool
 	Rounds       bool      // round-based creation: every validator creates one event per round on top of the previous round
+	LagHeavy     bool      // the heaviest validator (first in canonical order) is slow
+	NapProb      float64   // probability (per own event) that a validator falls asleep for a long stretch and later wakes up seeing all heads
+	SiblingForks float64   // share of forks that are siblings of the creator's latest event (same self-parent)
 	ViewP        float64   // Rounds mode: probability that a creator includes another validator's previous-round event
 	Sleeper      bool      // the lightest validator creates one event, sleeps, and wakes up at the end of the budget
 }
@@ -245,8 +248,20 @@ func Generate(r *rand.Rand, cfg GenCfg, rec *Recorder) *Scenario {
 			}
 			group[v.ID] = r.Intn(2)
 		}
+		if cfg.LagHeavy {
+			hv := vals[0]
+			for _, v := range vals {
+				if v.W > hv.W || (v.W == hv.W && v.ID < hv.ID) {
+					hv = v
+				}
+			}
+			slow[hv.ID] = true
+		}
 		budget := cfg.EpochEvents
+		slowFactor := 3 + r.Intn(4)
 		var roundQ []ValW
+		asleepUntil := map[idx.ValidatorID]int{}
+		justWoke := map[idx.ValidatorID]bool{}
 		prevRound := map[idx.ValidatorID]*Ev{}
 		hard := budget * 4
 		for n := 0; n < hard; n++ {
@@ -278,11 +293,26 @@ func Generate(r *rand.Rand, cfg GenCfg, rec *Recorder) *Scenario {
 					break
 				}
 				c = vals[r.Intn(len(vals))]
-				if slow[c.ID] && r.Intn(3) != 0 {
+				if slow[c.ID] && r.Intn(slowFactor) != 0 {
 					continue
 				}
 				if cfg.Sleeper && c.ID == sorted[0].ID && len(own[c.ID]) > 0 && n < budget-3 {
 					continue
+				}
+				if until, ok := asleepUntil[c.ID]; ok {
+					if n < until {
+						awake := 0
+						for _, v := range vals {
+							if u, ok := asleepUntil[v.ID]; !ok || n >= u {
+								awake++
+							}
+						}
+						if awake > 0 {
+							continue
+						}
+					}
+					delete(asleepUntil, c.ID)
+					justWoke[c.ID] = true
 				}
 				break
 			}
@@ -295,7 +325,14 @@ func Generate(r *rand.Rand, cfg GenCfg, rec *Recorder) *Scenario {
 				sp = mine[len(mine)-1]
 				if ep.Cheaters[c.ID] && r.Float64() < cfg.ForkProb {
 					k := r.Intn(len(mine) + 1)
-					if k == len(mine) {
+					if r.Float64() < cfg.SiblingForks {
+						// a sibling of the latest event: same self-parent
+						if sp.SP == 0 {
+							sp = nil
+						} else {
+							sp = s.ByID[sp.SP]
+						}
+					} else if k == len(mine) {
 						sp = nil // a second first event
 					} else {
 						sp = mine[k]
@@ -310,6 +347,13 @@ func Generate(r *rand.Rand, cfg GenCfg, rec *Recorder) *Scenario {
 				np = cfg.MaxParents - 1
 				if r.Intn(4) == 0 && !cfg.Sleeper {
 					np = r.Intn(cfg.MaxParents)
+				}
+				if ep.Cheaters[c.ID] && r.Intn(3) == 0 {
+					np = 0 // cheaters often extend their branches with self-parent-only events
+				}
+				if justWoke[c.ID] {
+					np = len(vals) - 1 // a validator that wakes up references every head it can see
+					delete(justWoke, c.ID)
 				}
 			}
 			perm := r.Perm(len(vals))
@@ -376,6 +420,9 @@ func Generate(r *rand.Rand, cfg GenCfg, rec *Recorder) *Scenario {
 			}
 			own[c.ID] = append(own[c.ID], ev)
 			ep.Events = append(ep.Events, ev)
+			if cfg.NapProb > 0 && r.Float64() < cfg.NapProb {
+				asleepUntil[c.ID] = n + len(vals)*(2+r.Intn(8))
+			}
 		}
 		if gen.Store.GetEpoch() != ep.Epoch {
 			ep.Sealed = true
